@@ -31,6 +31,8 @@ var verifRefSpellings = []string{
 	"http://h.example/x.json#/components/schemas/A",
 	"http://h.example/root/doc.json#/components/schemas/A", // the root's own path on another host
 	"//h.example/root/doc.json#/components/schemas/A",
+	"x.json?v=2", // a reference with its own query
+	"x.json?v=2#/components/schemas/A",
 }
 
 // verifDocWithRef builds a root document (JSON text) with one reference at the chosen position.
@@ -80,16 +82,19 @@ func verifExpectedRead(base *url.URL, ref string) string {
 	return base.ResolveReference(ru).String()
 }
 
-//verif:harness id=C11 tier=quick,thorough witness=end bounds="one reference at each of 14 positions (the ten resolver kinds, a schema inside a header, a parameter inside a callback, array items, media-type schema) x 20 spellings (relative, ./, ../, d/../, absolute path, file://, http(s)://, scheme-relative, empty fragment, internal missing, malformed fragment, the root's own name, the root's own path on another host) x entry point in {LoadFromData, LoadFromDataWithPath, LoadFromURI from a path, LoadFromURI from an http URL} x IsExternalRefsAllowed; every read goes through ReadFromURIFunc"
+//verif:harness id=C11 tier=quick,thorough witness=end bounds="one reference at each of 14 positions (the ten resolver kinds, a schema inside a header, a parameter inside a callback, array items, media-type schema) x 22 spellings (relative, with a query of its own, ./, ../, d/../, absolute path, file://, http(s)://, scheme-relative, empty fragment, internal missing, malformed fragment, the root's own name, the root's own path on another host) x entry point in {LoadFromData, LoadFromDataWithPath, LoadFromURI from a path, LoadFromURI from an http URL, LoadFromURI from an http URL with a query} x IsExternalRefsAllowed; every read goes through ReadFromURIFunc"
 func verifH_C11_reads() {
 	slot := verifChoose("slot", 14)
 	ref := verifRefSpellings[verifChoose("spelling", len(verifRefSpellings))]
 	allowed := verifChoose("allowed", 2) == 1
-	entry := verifChoose("entry", 4)
+	entry := verifChoose("entry", 5)
 	rootLoc := &url.URL{Path: "/root/doc.json"}
-	if entry == 3 {
-		// the root document itself comes from an http location
+	if entry >= 3 {
+		// the root document itself comes from an http location (entry 4: one with a query)
 		rootLoc = &url.URL{Scheme: "http", Host: "r.example", Path: "/root/doc.json"}
+		if entry == 4 {
+			rootLoc.RawQuery = "token=1"
+		}
 	}
 	rootText := verifDocWithRef(slot, ref)
 	var reads []string
@@ -114,7 +119,7 @@ func verifH_C11_reads() {
 	case 1:
 		base = rootLoc
 		_, err = loader.LoadFromDataWithPath([]byte(rootText), rootLoc)
-	case 2, 3:
+	case 2, 3, 4:
 		base = rootLoc
 		_, err = loader.LoadFromURI(rootLoc)
 	}
